@@ -320,6 +320,12 @@ public:
             throw nix::InvalidDimension("The ticks of a range dimension must not be empty!",
                                         "DataArray::appendRangeDimension");
         }
+        if (!std::is_sorted(ticks.begin(), ticks.end())) {
+            throw UnsortedTicks("DataArray::appendRangeDimension");
+        }
+        if (unit.size() > 0 && !util::isSIUnit(unit)) {
+            throw InvalidUnit("Unit is not a SI unit.", "DataArray::appendRangeDimension");
+        }
         RangeDimension dim = backend()->createRangeDimension(backend()->dimensionCount() + 1, ticks);
         if (label.size() > 0)
             dim.label(label);
